@@ -282,25 +282,34 @@ def stack_run(rng, kbps, nconn, size, upload=True, changes=(), start=None):
                 pass
 
         conns = []
+        from vlib import fakes
+        from aioslsk.network.connection import ConnectionState
+        fnet = fakes.FakeNet()
         for i in range(nconn):
             c = PeerConnection('10.0.0.5', 1000 + i, net, connection_type=PeerConnectionType.FILE)
             net.peer_connections.append(c)
             net._finalize_peer_connection(c)
+            # the REAL send_data / receive_data run on a fake transport: what is counted is what the
+            # connection actually writes to / reads from its stream
+            ep = fakes.Endpoint(fnet, label=f'file{i}')
+            c._reader, c._writer = ep.reader, ep.writer
+            c.state = ConnectionState.CONNECTED
             if upload:
-                async def send_data(data, c=c):
+                def on_data(data, ep=ep):
                     deliveries.append((round(loop.time() * TICK), len(data)))
-                    await asyncio.sleep(0)
-                c.send_data = send_data
+                ep.on_data = on_data
             else:
-                remaining = [size]
+                ep.feed(b'y' * size)
+                ep.feed_eof()
+                orig_read = ep.reader.read
 
-                async def receive_data(n, remaining=remaining):
-                    k = min(n, remaining[0])
-                    remaining[0] -= k
-                    deliveries.append((round(loop.time() * TICK), k))
+                async def read(n=-1, orig_read=orig_read):
+                    data = await orig_read(n)
+                    if data:
+                        deliveries.append((round(loop.time() * TICK), len(data)))
                     await asyncio.sleep(0)
-                    return b'y' * k if k else None
-                c.receive_data = receive_data
+                    return data
+                ep.reader.read = read
             conns.append(c)
 
         async def changer():
@@ -349,7 +358,7 @@ def stack_monitor_across(deliv, segments, nconn, slack_grants=None):
     suspended on a replaced limiter).  Windows touching an unlimited segment are skipped.
     Returns the worst excess in byte*ticks."""
     if len(segments) < 2:
-        return 0
+        return (-1, -1, 0)
     bounds = [(st, L, (segments[i + 1][0] if i + 1 < len(segments) else None)) for i, (st, L) in enumerate(segments)]
     pre = [0]
     for _, n in deliv:
